@@ -52,8 +52,8 @@ GroupDef(gn) ==
     [] gn = "q-mut0"   -> W2(Def, "maxnodes", 0, "muts", MutSmall)
     [] gn = "q-mut1"   -> [Def EXCEPT !.names = NamesMini, !.maxodd = 0, !.minnodes = 1, !.muts = {"trunc", "dropend"}]
     [] gn = "q-pkg"    -> PkAll([Def EXCEPT !.ctxs = {"body", "tc"}, !.maxnodes = 0, !.battery = "full"])
-    [] gn = "q-extreme" -> [Def EXCEPT !.ctxs = {"tc", "r", "bsdt"}, !.names = {"p", "t", "tbl", "text"}, !.wrong = {"tbl"}, !.attrdev = {}, !.minnodes = 1,
-                                     !.muts = MutExtreme, !.deeps = {3000}, !.wides = {30000}]
+    [] gn = "q-extreme" -> [Def EXCEPT !.ctxs = {"tc", "r"}, !.names = {"p", "t", "tbl", "text"}, !.wrong = {"tbl"}, !.attrdev = {}, !.minnodes = 1,
+                                     !.muts = MutExtreme, !.deeps = {2000}, !.wides = {8000}]
     [] gn = "q-sim"    -> PkAll([Def EXCEPT !.maxnodes = 9, !.maxdepth = 4, !.maxodd = 3, !.muts = MutSmall, !.textcls = TextAll, !.rich = {TRUE, FALSE}, !.cross = TRUE])
        \* ---- thorough tier
     [] gn = "t-place2" -> [Def EXCEPT !.maxnodes = 2, !.textcls = {"plain", "ent", "cdata", "comment"}, !.battery = "full"]
